@@ -153,6 +153,11 @@ func init() {
 		d.pre = append(d.pre, segs...)
 		return tuple{len(segs), iface{}}
 	}
+	externals["(*crypto/sha256.digest).Reset"] = func(fr *frame, args []value) value {
+		d := (*args[0].(*value)).(nativeObj).v.(*digestState)
+		d.pre = nil
+		return nil
+	}
 	externals["(*crypto/sha256.digest).Sum"] = func(fr *frame, args []value) value {
 		d := (*args[0].(*value)).(nativeObj).v.(*digestState)
 		prefix := bytesSegs(args[1])
